@@ -132,10 +132,12 @@ def newOuts (txid : Nat) (b : TxBody) : List OutRec :=
     { txid := txid, n := p.1, value := p.2.1, key := p.2.2, spent := false }
 
 /-- the guard of `send`: the transaction id is new (no stored row or stored input carries it),
-the inputs are distinct unspent outputs of the wallet, the keys named by the outputs exist -/
+the inputs are distinct outpoints, the keys named by the outputs exist.  The inputs need NOT be
+unspent: a transaction object that was built earlier and is sent now (a replacement of a
+transaction sent in the meantime) may consume outputs that a stored transaction consumes too. -/
 def sendGuard (st : St) (txid : Nat) (b : TxBody) : Bool :=
   !hasTx st txid && st.ins.all (fun i => i.ptx != txid) &&
-  (outpoints b).all (fun p => isUnspentOutpoint st p.1 p.2) && decide (outpoints b).Nodup &&
+  decide (outpoints b).Nodup &&
   b.outs.all (fun o => match o.2 with | some k => st.keys.contains k | none => true)
 
 /-- mark an output row spent / unspent when its outpoint is in the list -/
@@ -156,10 +158,24 @@ def send (st : St) (txid : Nat) (b : TxBody) : St × Status :=
       outs := (st.outs ++ newOuts txid b).map (setSpent true (outpoints b)) }, .ok)
   else (st, .refused)
 
+/-- the outpoints a transaction consumes that no OTHER stored transaction consumes -/
+def freedBy (st : St) (txid : Nat) : List (Nat × Nat) :=
+  ((st.ins.filter fun i => i.tx == txid).map fun i => (i.ptx, i.pn)).filter fun p =>
+    !((st.ins.filter fun i => i.tx != txid).any fun i => i.ptx == p.1 && i.pn == p.2)
+
 /-- `WalletTransaction.delete()`: the outputs of the transaction disappear, the outputs it
-consumed become unspent again, its inputs and its row are removed; then the balances are
-brought up to date. -/
+consumed become unspent again unless another stored transaction consumes them too, its inputs
+and its row are removed; then the balances are brought up to date. -/
 def delete (st : St) (txid : Nat) : St × Status :=
+  if hasTx st txid then
+    (balanceUpdate { st with
+      outs := (st.outs.filter fun o => o.txid != txid).map (setSpent false (freedBy st txid))
+      ins := st.ins.filter fun i => i.tx != txid
+      txs := st.txs.filter fun x => x.txid != txid }, .ok)
+  else (st, .refused)
+
+/-- `delete` as it was before the repair F103: every consumed output becomes unspent -/
+def deletePinned (st : St) (txid : Nat) : St × Status :=
   if hasTx st txid then
     let mine := (st.ins.filter fun i => i.tx == txid).map fun i => (i.ptx, i.pn)
     (balanceUpdate { st with
